@@ -72,8 +72,9 @@ type bNode struct {
 	peerTx  *transmit.DirectTransmission
 	objects []*inject.Object
 	done    chan struct{}
-	running bool
-	heap    uint64
+	running  bool
+	stopping bool
+	heap     uint64
 }
 
 // hnyEvent is one event as finally received by the fake Honeycomb API.
@@ -117,6 +118,8 @@ type worldB struct {
 	mu       sync.Mutex
 	hny      []*hnyEvent
 	peerLog  []*peerDelivery
+	bufferedAtStop map[string]bool
+	queuedAtStop   bool
 	authMode string // ok | fail | timeout
 	selfSend int
 	// per-node transports are tagged so that the SimNet knows the sender
@@ -282,6 +285,25 @@ func (n *bNode) startNode() error {
 	return nil
 }
 
+// noteBuffered records which traces sit in the collector's buffer (or whether
+// spans sit in its queues) right now; used to tell where a span lost at
+// shutdown was when the shutdown happened.
+func (n *bNode) noteBuffered() {
+	n.w.mu.Lock()
+	defer n.w.mu.Unlock()
+	if n.w.bufferedAtStop == nil {
+		n.w.bufferedAtStop = map[string]bool{}
+	}
+	for wk := 0; wk < n.coll.VerifWorkers(); wk++ {
+		for _, b := range n.coll.VerifBuffered(wk, time.Second) {
+			n.w.bufferedAtStop[b.TraceID] = true
+		}
+		if a, b := n.coll.VerifQueueLens(wk); a+b > 0 {
+			n.w.queuedAtStop = true
+		}
+	}
+}
+
 var heapNodes sync.Map // *collect.InMemCollector -> *bNode
 
 func simHeapHook(i *collect.InMemCollector, real uint64) uint64 {
@@ -294,12 +316,16 @@ func simHeapHook(i *collect.InMemCollector, real uint64) uint64 {
 
 // shutdown reproduces main's sequence: close done, wait 2 x BatchTimeout, stop everything.
 func (n *bNode) shutdown() {
-	if !n.running {
+	if !n.running || n.stopping {
 		return
 	}
-	n.running = false
+	n.stopping = true
 	close(n.done)
 	time.Sleep(2 * n.cfg.GetTracesConfig().GetBatchTimeout())
+	// startstop stops the routers first (the listeners close): from here on
+	// the node is unreachable for clients and peers
+	n.running = false
+	n.noteBuffered()
 	startstop.Stop(n.objects, nullStartStopLogger{})
 }
 
@@ -549,6 +575,12 @@ func (w *worldB) send(r *bRequest) {
 	r.sentAt = w.drv.Elapsed()
 	req := r.build()
 	r.resp = newRespRec()
+	if !n.running {
+		// connection refused
+		r.resp.WriteHeader(503)
+		r.finished = true
+		return
+	}
 	h := n.app.IncomingRouter.VerifHandler()
 	if r.peer {
 		h = n.app.PeerRouter.VerifHandler()
